@@ -306,7 +306,11 @@ class Report:
             cov['exhaustive'] = bool(exhaustive)
         unlisted = 0
         lines = []
-        os.makedirs(os.path.join(OUT, 'replays', self.pid), exist_ok=True)
+        rdir = os.path.join(OUT, 'replays', self.pid)
+        os.makedirs(rdir, exist_ok=True)
+        for f_ in os.listdir(rdir):      # replay files describe this run only; stale ones from earlier runs are removed
+            if f_.endswith('.json'):
+                os.remove(os.path.join(rdir, f_))
         kf = []
         for key in sorted(self.viol):
             if key in self.known:
